@@ -1,3 +1,4 @@
+#![cfg_attr(bytecodealliance_wit_bindgen_verif, recursion_limit = "512")]
 //! Bindings generation support for Rust with the Component Model.
 //!
 //! This crate is a bindings generator for [WIT] and the [Component Model].
